@@ -1014,7 +1014,9 @@ def _save_data_3(data, context):
 def _load_data_3(rec, context):
     result = _load_data_2(rec, context)
     yield result
-    result._key_joins = dict((context.object(k), (context.object(v0), context.object(v1)))
+    # Protocol 3 stored a single component ID for each side of a join, whereas
+    # joins are now defined by tuples of component IDs
+    result._key_joins = dict((context.object(k), ((context.object(v0),), (context.object(v1),)))
                              for k, v0, v1 in rec['_key_joins'])
 
 
